@@ -39,6 +39,7 @@ INT_T = {ctypes.c_int8: (8, True), ctypes.c_uint8: (8, False), ctypes.c_int16: (
 
 def prepare(tier, seed, scratch):
     field_rig.build(scratch)
+    field_rig.build_twin(scratch)
 
 
 def load_sources():
@@ -57,6 +58,10 @@ def load_sources():
         pass
     try:
         mods["fixture"] = field_rig.load()[0]
+    except Exception:
+        pass
+    try:
+        mods["twin"] = field_rig.load_twin()     # same class names as the fixture, other fields: both live in this process
     except Exception:
         pass
     out = {}
@@ -139,14 +144,14 @@ def fill(obj, mode, rng, depth=0):
 
 def gen_cases(tier, seed):
     rng = random.Random(f"c10-{seed}")
-    src = {"core": 0, "tests": 0, "fixture": 0}
+    src = {"core": 0, "tests": 0, "fixture": 0, "twin": 0}
     cases = []
     reps = 2 if tier == "quick" else 200
     # class lists are resolved in the worker (by index modulo); here only descriptors
-    for source in ("core", "tests", "fixture"):
-        for chunk in range(16 if source != "fixture" else 4):
+    for source in ("core", "tests", "fixture", "twin"):
+        for chunk in range(16 if source not in ("fixture", "twin") else 4):
             for r in range(reps):
-                cases.append({"source": source, "chunk": chunk, "nchunks": 16 if source != "fixture" else 4, "seed": rng.getrandbits(32)})
+                cases.append({"source": source, "chunk": chunk, "nchunks": 16 if source not in ("fixture", "twin") else 4, "seed": rng.getrandbits(32)})
     return cases
 
 
@@ -174,7 +179,16 @@ def run_case(case, tier):
     mine = [c for i, c in enumerate(classes) if i % case["nchunks"] == case["chunk"]]
     rng = random.Random(case["seed"])
     random.seed(case["seed"])
+    namesakes = {c.__name__: c for c in _SRC.get({"twin": "fixture", "fixture": "twin"}.get(case["source"], ""), [])}
     for cls in mine:
+        if cls.__name__ in namesakes:
+            # a class of the same name with other fields (from the other definition file) is converted first in this process
+            try:
+                nb = namesakes[cls.__name__]()
+                nb.from_dict(nb.to_dict()) if hasattr(nb, "from_dict") else None
+                bump("namesake_conversions")
+            except Exception:
+                pass
         if ctypes.sizeof(cls) == 0:
             modes = ["zero"]
         else:
